@@ -57,7 +57,7 @@ func fCond(r *openfgav1.RelationReference) *openfgav1.RelationReference {
 }
 
 const fFirstNonThis = 16 // index of the first leaf that is not a direct assignment
-const fNumLeaves = 22
+const fNumLeaves = 23
 
 // fLeaves: the 22 leaf forms of relation x; y and z are the next relations (cyclically).
 func fLeaves(i, n int) []fLeaf {
@@ -88,6 +88,8 @@ func fLeaves(i, n int) []fLeaf {
 		{y + " from p", fTTU(y, "p"), nil},
 		{z + " from p", fTTU(z, "p"), nil},
 		{x + " from p", fTTU(x, "p"), nil},
+		// leaf 22 (a direct assignment after the non-this leaves: never admitted as second operand)
+		{"[user:*, employee:*]", fThis(), R(fWild("user"), fWild("employee"))},
 	}
 }
 
@@ -115,7 +117,7 @@ func fForm(i, n int) (string, *openfgav1.Userset, []*openfgav1.RelationReference
 	}
 	seen = map[string]bool{}
 	for k, l := range leaves {
-		if k >= fFirstNonThis && l2mask&(1<<k) != 0 && !seen[l.text] {
+		if k >= fFirstNonThis && k < 22 && l2mask&(1<<k) != 0 && !seen[l.text] {
 			seen[l.text] = true
 			second = append(second, l)
 		}
@@ -154,7 +156,39 @@ func fForm(i, n int) (string, *openfgav1.Userset, []*openfgav1.RelationReference
 		text := "(" + a1.text + fOpNames[op1] + a2.text + ")" + fOpNames[op] + b1.text
 		return text, fOp(op, fOp(op1, a1.u, a2.u), b1.u), a1.restr
 	}
-	c := zzverif.Choose(tag, forms)
+	// SINGLE<i>=1: also union(leaf), intersection(leaf), union(union(leaf)) and (leaf) op second with the first
+	// operand wrapped in a one-child union - operators with a single operand, which only JSON models can say
+	singles := 0
+	if zzverif.Param(fmt.Sprintf("SINGLE%d", i), 0) == 1 {
+		singles = len(menu) * 3
+		if len(second) > 0 {
+			singles += len(menu) * len(ops)
+		}
+	}
+	c := zzverif.Choose(tag, forms+singles)
+	if c >= forms {
+		c -= forms
+		one := func(op int, u *openfgav1.Userset) *openfgav1.Userset {
+			if op == 1 {
+				return &openfgav1.Userset{Userset: &openfgav1.Userset_Intersection{Intersection: &openfgav1.Usersets{Child: []*openfgav1.Userset{u}}}}
+			}
+			return &openfgav1.Userset{Userset: &openfgav1.Userset_Union{Union: &openfgav1.Usersets{Child: []*openfgav1.Userset{u}}}}
+		}
+		if c < len(menu)*3 {
+			l := menu[c/3]
+			switch c % 3 {
+			case 0:
+				return "union(" + l.text + ")", one(0, l.u), l.restr
+			case 1:
+				return "intersection(" + l.text + ")", one(1, l.u), l.restr
+			}
+			return "union(union(" + l.text + "))", one(0, one(0, l.u)), l.restr
+		}
+		c -= len(menu) * 3
+		l := menu[c/len(ops)]
+		op := ops[c%len(ops)]
+		return "union(" + l.text + ")" + fOpNames[op] + second[0].text, fOp(op, one(0, l.u), second[0].u), l.restr
+	}
 	if c < len(menu) {
 		l := menu[c]
 		return l.text, l.u, l.restr
@@ -627,14 +661,21 @@ func VerifC13_GraphHistory() {
 		return &openfgav1.AuthorizationModel{Id: "01HVERIFSAMEID0000000000000", SchemaVersion: "1.1", TypeDefinitions: []*openfgav1.TypeDefinition{{Type: "user"}, td}}
 	}
 	v1, v2 := mk(false), mk(true)
-	switch zzverif.Choose("history", 3) {
+	last := NewWeightedAuthorizationModelGraphBuilder()
+	switch zzverif.Choose("history", 5) {
 	case 1:
 		(&WeightedAuthorizationModelGraphBuilder{}).Build(v1)
 	case 2:
 		(&WeightedAuthorizationModelGraphBuilder{}).Build(v1)
 		(&WeightedAuthorizationModelGraphBuilder{}).Build(v2)
+	case 3:
+		// ONE builder instance used for several models: what it saw first must not leak into the next build
+		last.Build(v1)
+	case 4:
+		last.Build(v2)
+		last.Build(v1)
 	}
-	wg, err := (&WeightedAuthorizationModelGraphBuilder{}).Build(v2)
+	wg, err := last.Build(v2)
 	if err != nil {
 		zzverif.ObserveGlobal("build(v2)", "rejected")
 	} else {
